@@ -171,6 +171,101 @@ theorem C03_step_total (E : Eph) (hl : ∀ y, E.leap y ≤ 12) (x : Month) (hx :
     obtain ⟨w, p⟩ := C03_next_pos E hl x x' hx (-1) h'
     exact ⟨x', h', w, p⟩
 
+theorem cumI_le_total (E : Eph) (y : Int) (h0 : 0 ≤ y) (h1 : y ≤ 10000) : cumI E y ≤ cumI E 10000 := by
+  have := cumI_mono E (10000 - y).toNat y h0
+  have e : y + ((10000 - y).toNat : Int) = 10000 := by omega
+  rw [e] at this; omega
+
+theorem loopF_total (E : Eph) : ∀ (f : Nat) (m y : Int), 0 ≤ y → y ≤ 9999 → 1 ≤ m → m ≤ 12 * (f : Int) →
+    cumI E y + m ≤ cumI E 10000 → ∃ r, loopF E f m y = some r := by
+  intro f
+  induction f with
+  | zero => intro m y _ _ h1 h2 _; omega
+  | succ f ih =>
+    intro m y hy0 hy9 hm1 hm2 htot
+    rw [loopF]
+    by_cases hgt : m > (E.cnt y : Int)
+    · have hs := cumI_succ E y hy0
+      have hc := cnt_cases E y
+      have hy1 : ¬ (y + 1 > 9999) := by
+        intro hh
+        have : y + 1 = 10000 := by omega
+        rw [this] at hs
+        omega
+      simp only [hgt, if_true, hy1, if_false]
+      exact ih (m - E.cnt y) (y + 1) (by omega) (by omega) (by omega) (by omega) (by omega)
+    · simp only [hgt, if_false]
+      exact ⟨_, rfl⟩
+
+theorem loopB_total (E : Eph) : ∀ (f : Nat) (m y : Int), 0 ≤ y → y ≤ 9999 → 1 - 12 * (f : Int) ≤ m →
+    1 ≤ cumI E y + m → ∃ r, loopB E (f + 1) m y = some r ∧ 0 ≤ r.2 := by
+  intro f
+  induction f with
+  | zero =>
+    intro m y hy0 _ hm hpos
+    rw [loopB]
+    have hle : ¬ (m ≤ 0) := by omega
+    simp only [hle, if_false]
+    exact ⟨_, rfl, hy0⟩
+  | succ f ih =>
+    intro m y hy0 hy9 hm hpos
+    rw [loopB]
+    by_cases hle : m ≤ 0
+    · have hy1 : 1 ≤ y := by
+        by_cases h : 1 ≤ y
+        · exact h
+        · exfalso
+          have : y = 0 := by omega
+          rw [this] at hpos
+          have : cumI E 0 = 0 := rfl
+          omega
+      have hs := cumI_succ E (y - 1) (by omega)
+      have e : y - 1 + 1 = y := by omega
+      rw [e] at hs
+      have hc := cnt_cases E (y - 1)
+      have hn : ¬ (y - 1 < -1) := by omega
+      simp only [hle, if_true, hn, if_false]
+      exact ih (m + E.cnt (y - 1)) (y - 1) (by omega) (by omega) (by omega) (by omega)
+    · simp only [hle, if_false]
+      exact ⟨_, rfl, hy0⟩
+
+/-- C03, TOTALITY of `LunarMonth::next(n)` for every n: from a well-formed month, whenever the target position lies on
+the listing (0 ≤ position + n < number of months of lunar years 0..9999), the call returns — and (`C03_next_pos`) what it
+returns is the month exactly n places away. Any ephemeris with leap ≤ 12. -/
+theorem C03_next_total (E : Eph) (hl : ∀ y, E.leap y ≤ 12) (x : Month) (hx : WF E x) (n : Int)
+    (h0 : 0 ≤ gpos E x + n) (h1 : gpos E x + n < cumI E 10000) :
+    ∃ x', next E x n = some x' ∧ WF E x' ∧ gpos E x' = gpos E x + n := by
+  have key : ∃ x', next E x n = some x' := by
+    obtain ⟨hx1, hx2, hx3⟩ := hx
+    unfold next
+    by_cases hn : n = 0
+    · simp only [hn, if_true]
+      rw [monthWithLeap_eq]
+      exact ⟨_, fromYm_of_pos E x.y ((x.idx : Int) + 1) hx1 hx2 (hl _) (by omega) (by omega)⟩
+    · simp only [hn, if_false]
+      have hg : gpos E x = cumI E x.y + x.idx := rfl
+      by_cases hpos : n > 0
+      · simp only [hpos, if_true]
+        obtain ⟨r, hr⟩ := loopF_total E (n.natAbs + 1) ((x.idx : Int) + 1 + n) x.y hx1 hx2 (by omega)
+          (by have := cnt_cases E x.y; omega) (by omega)
+        obtain ⟨i1, i2, i3, i4, i5⟩ := loopF_spec E _ _ _ r hx1 hx2 (by omega) hr
+        rw [hr]
+        obtain ⟨m, y⟩ := r
+        dsimp only at i1 i2 i3 i4 i5 ⊢
+        exact ⟨_, fromYm_of_pos E y m (by omega) i5 (hl _) i2 i3⟩
+      · simp only [hpos, if_false]
+        have hcx := cnt_cases E x.y
+        obtain ⟨r, hr, hr0⟩ := loopB_total E n.natAbs ((x.idx : Int) + 1 + n) x.y hx1 hx2 (by omega) (by omega)
+        obtain ⟨i1, i2, i3, i4⟩ := loopB_spec E _ _ _ r hx2 (by omega) hr hr0
+        rw [hr]
+        obtain ⟨m, y⟩ := r
+        dsimp only at i1 i2 i3 i4 hr0 ⊢
+        exact ⟨_, fromYm_of_pos E y m hr0 (by omega) (hl _) i2 i3⟩
+  obtain ⟨x', h⟩ := key
+  obtain ⟨w, p⟩ := C03_next_pos E hl x x' hx n h
+  exact ⟨x', h, w, p⟩
+
+
 /-- non-vacuity: a concrete date meets the hypotheses -/
 example : Civil.valid 2024 2 10 = true ∧ (241 ≤ (2024 : Int) ∧ (2024 : Int) ≤ 9997) := by decide
 
